@@ -93,4 +93,37 @@ CHECKS = {
         quick=dict(tests=[dict(name="TestC12", cases=20000), dict(name="TestC12CLI", cases=320)]),
         thorough=dict(tests=[dict(name="TestC12", cases=300000), dict(name="TestC12CLI", cases=5000)]),
     ),
+    "C03": dict(
+        level="exploration",
+        rule=("Inputs: accepted journals from the history generator with asset and liability positions in several commodities, a price forest over the commodities "
+              "(direct, inverse and chained declarations; redeclared over time; declared on the first day, or - in a quarter of the cases - late or never for some edge), "
+              "a drawn valuation commodity, windows, intervals, --last, --close on/off, with and without per-commodity detail (-s). "
+              "Oracle: `knut balance -v V --color=false --digits 8` read by indentation vs the report pipeline run on IDEAL values: every booking half valued quantity x price(booking day), "
+              "every price change revaluing every open A/L position onto Income:<mirror path> without truncating the individual values (prices themselves follow the chain "
+              "truncation of C12), so an A/L cell is exactly sum(quantity x latest price) and the mirror income row its accumulated gain; tolerance per cell = (number of value "
+              "entries of the account + 1) x 1e-8 (one unit of the 8th decimal per arithmetic step, as the statement allows). With history before --from only changes against the first column are compared. "
+              "A price missing for a booking inside the window must give exit!=0, stderr, empty stdout; all prices present must give a report. "
+              "Non-trivial: a non-V A/L position is held across a price change inside the window and (chain or inverse price, a liability, or >=2 columns); or a missing price in the window."),
+        assumptions=["forest price graphs only (unique chain)", "a reciprocal within 1e-16 below an 8-decimal boundary is not generated (probability ~1e-8 per price)"],
+        quick=dict(tests=[dict(name="TestC03", cases=6400)]),
+        thorough=dict(tests=[dict(name="TestC03", cases=128000)]),
+    ),
+    "C08": dict(
+        level="exploration",
+        rule=("Inputs: syntactically valid journals (all directive kinds, both annotations, Unicode names, multi-line descriptions, includes) rendered in noisy "
+              "layouts (tabs, CRLF, trailing blanks, comment lines, annotation order, single/multi-line assertions, missing final newline), and 1-3 byte-level edits "
+              "of those (mostly unparseable; the ones that still parse are kept as odd layouts). Oracle, library (parser + syntax.FormatFile): output parses; same "
+              "directive sequence with identical texts of dates, accounts, amounts, commodities, description, accrual interval/start/end/account, performance targets, "
+              "include path, number and order of bookings/balances (own walker over both trees); gaps as delimited by the parser byte-identical on both sides; every "
+              "comment line of the original is a line of the output in the same order; format(format(x)) == format(x). Oracle, CLI (knut format FILE...; 1-3 files, "
+              "sub-directories, non-ASCII names, repeated argument, an included file that is not named): all parse -> exit 0 and every file equals the library result; "
+              "some file does not parse -> exit != 0, stderr non-empty, that file byte-identical, parseable siblings either formatted or untouched; files not named stay byte-identical. "
+              "Non-trivial: >=2 directives and formatting changed >=1 byte; or (CLI) an unparseable named file; distinct by file bytes + argv."),
+        assumptions=["knut's parser reads both sides (trusted via C07)",
+                     "alignment, trailing blanks, line-ending style and annotation-line order inside a directive are layout and not compared",
+                     "a directive's terminating newline belongs to the directive where the parser says so (transactions, multi-line assertions)"],
+        quick=dict(tests=[dict(name="TestC08", cases=32000), dict(name="TestC08CLI", cases=800)]),
+        thorough=dict(tests=[dict(name="TestC08", cases=320000), dict(name="TestC08CLI", cases=5600)],
+                      fuzz=[dict(name="FuzzC08", seconds=90, seed_corpus=True)]),
+    ),
 }
